@@ -23,8 +23,27 @@ REGENERATED definitions for all environments.
 
 Fail closed: inside these functions EVERY statement and expression must be understood (the functions are small; logging
 calls and f-strings are translated too, because an exception raised while formatting a log line escapes like any other --
-seed C02-4).  Ignored: docstrings, `nonlocal`, annotations without a value, `cast(T, x)` (= x), `# type:` comments,
-RunningProcess.__repr__.  Anything else raises HelperError and `./check C17` reports a broken tie obligation.
+seed C02-4).  Ignored: docstrings, `nonlocal`, `pass`, annotations (of parameters, returns, variables; `x: T` without a value),
+`cast(T, x)` (= x), comments.  An ignored annotation / type argument must contain no Call, NamedExpr, Await, Yield, Lambda.
+RunningProcess.__repr__ is not translated but must be read-only (no call, walrus, await, yield, raise, store to an
+attribute or subscript, del, global).
+
+Outside the translated bodies the translator FAILS CLOSED on (harness/HARDEN_TASK.md item 2):
+  * module level: anything but imports, the docstring, `__all__ = ...`, `_T = TypeVar(..)`, the dict comprehension
+    `_exitcode_to_name`, def / async def / class; every name the translator recognises BY NAME (partial, cast, getLogger,
+    QueueHandler, DEBUG, ProcessPoolExecutor, BrokenProcessPool, _ExceptionWithTraceback, pickle, os, signal, asyncio,
+    contextlib, mp, logging, datetime, timezone, MultiprocessingLogging, dataclass, Generic) must be bound exactly once, by
+    the expected import; a translated function / class must be defined exactly once and not rebound; a function that is
+    not translated (example_func) must not mention a translated name, `_exitcode_to_name`, `global`;
+  * local shadowing of a recognised name (parameter or assignment inside a translated function);
+  * classes: bases other than `Generic[_T]`, class keywords, decorators other than `@dataclass` on ExitedProcess / none on
+    RunningProcess, statements in the class body other than the docstring, methods (RunningProcess) / bare annotations
+    (ExitedProcess), any method of RunningProcess other than the translated ones and __repr__ (so no __getattr__, __bool__,
+    __eq__, __aenter__ ..., no sibling touching the tracked attributes), any method on ExitedProcess (no __post_init__);
+  * decorators on any translated function other than `asynccontextmanager` on MultiprocessingLogging;
+  * default argument values: emitted (`outer_defaults`, `logging_defaults`; Proc/HelperTie.v computes the frame of a call
+    that omits them); a default on any other translated function, keyword-only parameters, **kwargs.
+Anything else raises HelperError and `./check C17` reports a broken tie obligation.
 """
 from __future__ import annotations
 
@@ -90,6 +109,33 @@ def find(body, kind, name, what=''):
     return xs[0]
 
 
+BAD_IN_IGNORED = (ast.Call, ast.NamedExpr, ast.Await, ast.Yield, ast.YieldFrom, ast.Lambda)
+
+
+def check_ignored(node, what: str):
+    """an expression the translator drops (annotation, type argument) must not be able to do anything"""
+    if node is None:
+        return
+    for n in ast.walk(node):
+        if isinstance(n, BAD_IN_IGNORED):
+            raise HelperError(f'{what}: ignored position `{norm(node)[:80]}` contains a {type(n).__name__}')
+
+
+def check_annotations(fn):
+    a = fn.args
+    for x in a.posonlyargs + a.args + a.kwonlyargs + ([a.vararg] if a.vararg else []) + ([a.kwarg] if a.kwarg else []):
+        check_ignored(x.annotation, f'{fn.name}: annotation of `{x.arg}`')
+    check_ignored(fn.returns, f'{fn.name}: return annotation')
+
+
+def defaults_of(fn) -> list[tuple[str, ast.AST]]:
+    a = fn.args
+    if a.kw_defaults:
+        raise HelperError(f'{fn.name}: keyword-only defaults')
+    names = [x.arg for x in a.args]
+    return list(zip(names[len(names) - len(a.defaults):], a.defaults))
+
+
 def params(fn) -> list[str]:
     a = fn.args
     if a.kwarg or a.posonlyargs or a.kwonlyargs:
@@ -101,6 +147,22 @@ def params(fn) -> list[str]:
 
 
 MODULE_GLOBALS = {'DEBUG', '_exitcode_to_name', '__name__'}
+# name -> (module, original name) it must be imported from (None: `import <module> [as name]`)
+IMPORTS_RUN = {
+    'asyncio': ('asyncio', None), 'contextlib': ('contextlib', None), 'os': ('os', None), 'pickle': ('pickle', None),
+    'signal': ('signal', None), 'ProcessPoolExecutor': ('concurrent.futures', 'ProcessPoolExecutor'),
+    'BrokenProcessPool': ('concurrent.futures.process', 'BrokenProcessPool'),
+    '_ExceptionWithTraceback': ('concurrent.futures.process', '_ExceptionWithTraceback'),
+    'dataclass': ('dataclasses', 'dataclass'), 'datetime': ('datetime', 'datetime'), 'timezone': ('datetime', 'timezone'),
+    'partial': ('functools', 'partial'), 'getLogger': ('logging', 'getLogger'), 'Generic': ('typing', 'Generic'),
+    'MultiprocessingLogging': ('.multiprocessing_logging', 'MultiprocessingLogging'),
+}
+IMPORTS_LOG = {
+    'asyncio': ('asyncio', None), 'contextlib': ('contextlib', None), 'logging': ('logging', None),
+    'mp': ('multiprocessing', None), 'partial': ('functools', 'partial'), 'DEBUG': ('logging', 'DEBUG'),
+    'getLogger': ('logging', 'getLogger'), 'QueueHandler': ('logging.handlers', 'QueueHandler'), 'cast': ('typing', 'cast'),
+}
+RECOGNISED_BY_NAME = set(IMPORTS_RUN) | set(IMPORTS_LOG) | {'list', 'RunningProcess', 'ExitedProcess', '_exitcode_to_name'}
 LOG_METHODS = {'debug', 'info', 'warning', 'error', 'exception', 'critical'}
 TRACKED_ATTRS = {'pid', 'exitcode', 'name', 'levelno', '__traceback__'}
 CLASSES = {
@@ -133,6 +195,9 @@ class Scope:
             names |= outer.names
         names.discard('self')
         self.names = names
+        shadow = (names - (outer.names if outer else set())) & RECOGNISED_BY_NAME
+        if shadow:
+            raise HelperError(f'{self.name}: local name(s) {sorted(shadow)} shadow a name the translator recognises by name')
 
     @staticmethod
     def walk_own(fn):
@@ -207,6 +272,7 @@ def tr_call(c: ast.Call, sc: Scope) -> str:
     a = c.args
     # ---- typing
     if is_name(f, 'cast') and len(a) == 2:
+        check_ignored(a[0], f'{sc.name}: type argument of cast')
         return tr_exp(a[1], sc)
     # ---- time, logging
     if is_chain(f, ['datetime', 'now']) and len(a) == 1 and is_chain(a[0], ['timezone', 'utc']):
@@ -411,6 +477,7 @@ def tr_stmt(st, sc: Scope, nested: dict) -> str:
             raise sc.err(st, f'nested coroutine `{st.name}` with parameters or decorators')
         if st.name in nested:
             raise sc.err(st, f'`{st.name}` defined twice')
+        check_annotations(st)
         nested[st.name] = tr_body(st.body, Scope(st, sc.module_funcs, outer=sc, has_self=False), {})
         return ''
     if isinstance(st, ast.Expr):
@@ -423,7 +490,10 @@ def tr_stmt(st, sc: Scope, nested: dict) -> str:
             raise sc.err(st, 'chained assignment')
         return f'(SAssign {tr_target(st.targets[0], sc)} {tr_exp(st.value, sc)})'
     if isinstance(st, ast.AnnAssign):
+        check_ignored(st.annotation, f'{sc.name}: annotation')
         if st.value is None:
+            if not isinstance(st.target, ast.Name):
+                raise sc.err(st, 'bare annotation of something that is not a variable')
             return ''
         return f'(SAssign {tr_target(st.target, sc)} {tr_exp(st.value, sc)})'
     if isinstance(st, ast.If):
@@ -472,7 +542,10 @@ def tr_stmt(st, sc: Scope, nested: dict) -> str:
     raise sc.err(st, f'statement `{norm(st)[:80]}` not recognised')
 
 
-def tr_function(fn, module_funcs, has_self=False, want_nested: tuple = ()) -> tuple[str, dict, list[str]]:
+def tr_function(fn, module_funcs, has_self=False, want_nested: tuple = (), allow_defaults=False) -> tuple[str, dict, list[str]]:
+    check_annotations(fn)
+    if not allow_defaults and (fn.args.defaults or fn.args.kw_defaults):
+        raise HelperError(f'{fn.name}: default argument values on a function whose callers pass everything')
     sc = Scope(fn, module_funcs, has_self=has_self)
     nested: dict = {}
     for st in fn.body:
@@ -489,6 +562,75 @@ def tr_function(fn, module_funcs, has_self=False, want_nested: tuple = ()) -> tu
     return body, nested, ps
 
 
+# ---------------------------------------------------------------- module / class level (fail closed)
+
+def check_module(tree, src: str, imports: dict, translated: set[str], allowed_assign: set[str]):
+    """module-level statements: nothing may rebind or monkeypatch what the translator translates or recognises by name"""
+    bound: dict[str, list] = {}
+
+    def bind(name, how):
+        bound.setdefault(name, []).append(how)
+
+    body = strip_doc(tree.body)
+    for st in body:
+        if isinstance(st, ast.Import):
+            for al in st.names:
+                bind(al.asname or al.name.split('.')[0], (al.name, None))
+        elif isinstance(st, ast.ImportFrom):
+            mod = '.' * st.level + (st.module or '')
+            for al in st.names:
+                if al.name == '*':
+                    raise HelperError(f'{src}:{st.lineno}: star import')
+                bind(al.asname or al.name, (mod, al.name))
+        elif isinstance(st, (ast.FunctionDef, ast.AsyncFunctionDef, ast.ClassDef)):
+            bind(st.name, ('def', None))
+        elif isinstance(st, ast.Assign) and len(st.targets) == 1 and isinstance(st.targets[0], ast.Name) \
+                and st.targets[0].id in allowed_assign:
+            bind(st.targets[0].id, ('assign', None))
+            if st.targets[0].id == '__all__':
+                check_ignored(st.value, f'{src}: __all__')
+            elif st.targets[0].id == '_T':
+                if norm(st.value) not in ("TypeVar('_T')", 'TypeVar("_T")'):
+                    raise HelperError(f'{src}:{st.lineno}: `{norm(st)}`')
+        else:
+            raise HelperError(f'{src}:{st.lineno}: module-level statement `{norm(st)[:80]}` (only imports, __all__, _T, '
+                              f'_exitcode_to_name, def, class are understood; anything else could rebind a translated name)')
+    for name, want in imports.items():
+        got = bound.get(name, [])
+        if got != [want]:
+            raise HelperError(f'{src}: `{name}` must be bound once, by the import {want}; found {got}')
+    for name in translated:
+        if bound.get(name) != [('def', None)]:
+            raise HelperError(f'{src}: `{name}` must be defined exactly once at module level; found {bound.get(name)}')
+    # functions / classes that are not translated must stay away from what is
+    for st in body:
+        if isinstance(st, (ast.FunctionDef, ast.AsyncFunctionDef, ast.ClassDef)) and st.name not in translated:
+            if isinstance(st, ast.ClassDef):
+                raise HelperError(f'{src}:{st.lineno}: class `{st.name}` is not translated')
+            for n in ast.walk(st):
+                if isinstance(n, (ast.Global, ast.Nonlocal)):
+                    raise HelperError(f'{src}: untranslated function `{st.name}` has a global statement')
+                ident = n.id if isinstance(n, ast.Name) else n.attr if isinstance(n, ast.Attribute) else None
+                if ident in translated or ident in ('_exitcode_to_name', '__dict__', 'setattr', 'globals', 'vars'):
+                    raise HelperError(f'{src}: untranslated function `{st.name}` mentions `{ident}`')
+
+
+def check_class(cls, bases: list[str], decorators: list[str]):
+    if [norm(b) for b in cls.bases] != bases or cls.keywords:
+        raise HelperError(f'class {cls.name}: bases {[norm(b) for b in cls.bases]} / keywords (expected {bases})')
+    if [norm(d) for d in cls.decorator_list] != decorators:
+        raise HelperError(f'class {cls.name}: decorators {[norm(d) for d in cls.decorator_list]} (expected {decorators})')
+
+
+def check_readonly(fn, what: str):
+    for n in ast.walk(fn):
+        if isinstance(n, (ast.Call, ast.NamedExpr, ast.Await, ast.Yield, ast.YieldFrom, ast.Raise, ast.Delete, ast.Global,
+                          ast.Nonlocal, ast.Lambda, ast.Import, ast.ImportFrom)):
+            raise HelperError(f'{what}: {type(n).__name__} in a method that is not translated')
+        if isinstance(n, (ast.Attribute, ast.Subscript)) and isinstance(n.ctx, (ast.Store, ast.Del)):
+            raise HelperError(f'{what}: stores to `{norm(n)}`')
+
+
 # ---------------------------------------------------------------- the two modules
 
 RP_METHODS = ['__init__', '_log_created', '_log_exited', '_format_time', 'interrupt', 'send_signal', 'terminate', 'kill', '__await__']
@@ -503,14 +645,25 @@ def translate(repo: Path) -> str:
     t_run, t_log = ast.parse(p_run.read_text()), ast.parse(p_log.read_text())
     defs: list[tuple[str, str, str]] = []      # (name, type, term)
 
+    check_module(t_log, SRC_LOG, IMPORTS_LOG, {'MultiprocessingLogging', '_initializer'}, {'__all__'})
+    check_module(t_run, SRC_RUN, IMPORTS_RUN, {'ExitedProcess', 'RunningProcess', '_call_all', '_call', 'run_in_process'},
+                 {'_T', '_exitcode_to_name'})
+
+    def defaults_term(fn, names_ok: set[str]) -> str:
+        out = []
+        for nm, dv in defaults_of(fn):
+            out.append(f'({cstr(nm)}, {tr_exp(dv, Scope(fn, set()))})')
+        return clist(out)
+
     # ---- multiprocessing_logging.py
     log_funcs = {n.name for n in t_log.body if isinstance(n, (ast.FunctionDef, ast.AsyncFunctionDef))}
     ml = find(t_log.body, ast.AsyncFunctionDef, 'MultiprocessingLogging', SRC_LOG)
     decos = [norm(d) for d in ml.decorator_list]
     if decos not in (['contextlib.asynccontextmanager'], ['asynccontextmanager']):
         raise HelperError(f'MultiprocessingLogging: decorators {decos} (expected asynccontextmanager)')
-    body, nested, ps = tr_function(ml, log_funcs, want_nested=('_listen',))
+    body, nested, ps = tr_function(ml, log_funcs, want_nested=('_listen',), allow_defaults=True)
     defs.append(('logging_params', 'list string', clist(cstr(x) for x in ps)))
+    defs.append(('logging_defaults', 'list (string * hexp)', defaults_term(ml, set())))
     defs.append(('logging_prog', 'hstmt', body))
     defs.append(('listen_prog', 'hstmt', nested['_listen']))
     ini = find(t_log.body, ast.FunctionDef, '_initializer', SRC_LOG)
@@ -523,6 +676,12 @@ def translate(repo: Path) -> str:
     # ---- run.py
     run_funcs = {n.name for n in t_run.body if isinstance(n, (ast.FunctionDef, ast.AsyncFunctionDef))}
     ep = find(t_run.body, ast.ClassDef, 'ExitedProcess', SRC_RUN)
+    check_class(ep, ['Generic[_T]'], ['dataclass'])
+    for n in strip_doc(ep.body):
+        if not (isinstance(n, ast.AnnAssign) and n.value is None and isinstance(n.target, ast.Name)):
+            raise HelperError(f'ExitedProcess:{n.lineno}: `{norm(n)[:60]}`: only bare field annotations are understood '
+                              f'(no defaults, no methods, no __post_init__)')
+        check_ignored(n.annotation, 'ExitedProcess: field annotation')
     fields = [n.target.id for n in ep.body if isinstance(n, ast.AnnAssign) and isinstance(n.target, ast.Name)]
     for n in ep.body:
         if isinstance(n, (ast.FunctionDef, ast.AsyncFunctionDef)):
@@ -530,6 +689,10 @@ def translate(repo: Path) -> str:
     defs.append(('exited_fields', 'list string', clist(cstr(x) for x in fields)))
 
     rp = find(t_run.body, ast.ClassDef, 'RunningProcess', SRC_RUN)
+    check_class(rp, ['Generic[_T]'], [])
+    for n in strip_doc(rp.body):
+        if not isinstance(n, ast.FunctionDef):
+            raise HelperError(f'RunningProcess:{n.lineno}: `{norm(n)[:60]}`: only methods are understood in the class body')
     meths = [n.name for n in rp.body if isinstance(n, (ast.FunctionDef, ast.AsyncFunctionDef))]
     defs.append(('rp_methods', 'list string', clist(cstr(x) for x in meths)))
     for n in rp.body:
@@ -544,10 +707,11 @@ def translate(repo: Path) -> str:
         defs.append((nm + '_params', 'list string', clist(cstr(x) for x in ps)))
         defs.append((nm + '_prog', 'hstmt', body))
     extra = [m for m in meths if m not in RP_METHODS and m != '__repr__']
-    for m in extra:
-        # a method the tie does not know: translate it (fail closed on anything strange) and list it
-        fn = find(rp.body, (ast.FunctionDef, ast.AsyncFunctionDef), m, 'RunningProcess')
-        tr_function(fn, run_funcs, has_self=True)
+    if extra or len(set(meths)) != len(meths):
+        raise HelperError(f'RunningProcess: methods {extra or meths} are not translated (a sibling method may touch the '
+                          f'tracked attributes; a special method may change what attribute access / truth / await mean)')
+    if '__repr__' in meths:
+        check_readonly(find(rp.body, ast.FunctionDef, '__repr__', 'RunningProcess'), 'RunningProcess.__repr__')
 
     for name in ('_call_all', '_call'):
         fn = find(t_run.body, ast.FunctionDef, name, SRC_RUN)
@@ -560,8 +724,9 @@ def translate(repo: Path) -> str:
     rip = find(t_run.body, ast.AsyncFunctionDef, 'run_in_process', SRC_RUN)
     if rip.decorator_list:
         raise HelperError('run_in_process: decorated')
-    body, nested, ps = tr_function(rip, run_funcs, want_nested=('_run',))
+    body, nested, ps = tr_function(rip, run_funcs, want_nested=('_run',), allow_defaults=True)
     defs.append(('outer_params', 'list string', clist(cstr(x) for x in ps)))
+    defs.append(('outer_defaults', 'list (string * hexp)', defaults_term(rip, set())))
     defs.append(('outer_prog', 'hstmt', body))
     defs.append(('run_prog', 'hstmt', nested['_run']))
 
